@@ -36,7 +36,7 @@ REQUIRED_MONITORS = ["increasing", "inside_limits", "inside_support", "weights_f
 REQUIRED_BUCKETS = {
     "quick": ["type:gaussian", "type:lognormal", "type:schulz", "type:boltzmann", "type:uniform",
               "type:rectangle", "cut:none", "cut:lower", "cut:upper", "cut:both", "relative", "absolute",
-              "degenerate:zero_width", "degenerate:npts<2", "layer:get_mesh", "layer:sasview", "layer:shared-name-sequence", "layer:set_dispersion-shared-object", "layer:one-setting-changed-sequence",
+              "degenerate:zero_width", "degenerate:npts<2", "layer:get_mesh", "layer:sasview", "layer:shared-name-sequence", "layer:set_dispersion-shared-object", "layer:one-setting-changed-sequence", "layer:vector-element",
               "partype:volume", "partype:orientation"],
 }
 REQUIRED_BUCKETS["thorough"] = REQUIRED_BUCKETS["quick"]
@@ -409,7 +409,16 @@ def run_layer(case, rec):
         v0 = float(p.default)
         cur = {"type": "gaussian", "n": 9, "width": 0.12, "nsig": 2.0, "value": v0}
         steps = [{}, {"nsig": 3.0}, {"n": 10}, {"width": 0.2}, {"type": "lognormal"}, {"value": v0*1.25}, {"nsig": 2.0},
-                 {"type": "gaussian"}, {"nsig": 2.5}, {"width": 0.12}]
+                 {"type": "gaussian"}, {"nsig": 2.5}, {"width": 0.12},
+                 # widths above one (the quantifier goes to PD = 2): the hard limits cut the lower tail
+                 {"width": 1.5}, {"type": "uniform"}, {"width": 1.9, "type": "boltzmann"}]
+        # hard limits as declared in the model's parameter table (for an element of a vector parameter: the
+        # limits of the vector), not as carried by the expanded call parameter
+        decl = [kp for kp in info.parameters.kernel_parameters
+                if kp.name == p.name or (kp.length > 1 and p.name.rstrip("0123456789") == kp.id)]
+        lim = tuple(decl[0].limits) if decl else tuple(p.limits)
+        if decl and decl[0].length > 1:
+            rec.bucket("layer:vector-element")
         mm = Model()
         for st_ in steps:
             cur.update(st_)
@@ -423,7 +432,7 @@ def run_layer(case, rec):
                 mesh = direct_model.get_mesh(info, pars, dim="1d")
                 _, pts2, wts2 = mm._get_weights(p)
                 exp_v, exp_w = weights.get_weights(cur["type"], cur["n"], cur["width"], cur["nsig"], cur["value"],
-                                                   p.limits, True)
+                                                   lim, True)
             finally:
                 _state["current"] = None
             idx = [q.name for q in info.parameters.call_parameters].index(p.name)
@@ -432,7 +441,7 @@ def run_layer(case, rec):
                 ok = np.array_equal(np.asarray(a), exp_v) and np.array_equal(np.asarray(b), exp_w)
                 rec.check("mesh_is_get_weights_for_this_parameter", ok,
                           None if ok else {"model": name, "parameter": p.name, "via": via + " after a request differing in " +
-                                           (", ".join(st_) or "nothing"), "settings": dict(cur),
+                                           (", ".join(st_) or "nothing"), "settings": dict(cur), "declared_limits": lim,
                                            "points": np.asarray(a)[:6], "expected_points": exp_v[:6],
                                            "npoints": [len(a), len(exp_v)]})
         rec.bucket("layer:one-setting-changed-sequence")
